@@ -39,6 +39,18 @@ claimed = {
     text="All four clip types (plus Difference(C,S) and UnionPaths64) run on the same fully symbolic R(1,1) input in one symbolic run; the set identities (Xor = Union minus Intersection, Difference = subject minus Intersection, pairwise disjointness, parts make up Union, UnionPaths64 = Union with empty clip) are decided per grid cell on every feasible path.",
     note="Pointwise identities imply the area identities up to the band; the area formulas themselves and inputs with thousands of vertices are outside the bound.",
     ref="3/C19"),
+ "C03": dict(
+    text="Every exported 64-bit entry point (boolean operations in paths and tree form with closed and open subjects, rectangle clipping of polygons and lines, Minkowski, path utilities) executed symbolically on degenerate input families (empty set, empty path, 1/2 points, collinear, repeated point, zero-area, coincident rectangles, repeated vertices; empty and inverted rectangles; clip type values 0..5, fill rule values 0..4) with symbolic coordinates: a panic, a failed Execute, or an exhausted loop budget on any feasible path is reported once it reproduces natively.",
+    note="Coordinates in [-64,64] (magnitude is C13's subject); 2-point paths axis-parallel; offset entry points are exercised by C05/C10's jobs and the precision panic by C07's. Known finding: Execute(NoClip) returns false on a fresh engine.",
+    ref="3/C03"),
+ "C06": dict(
+    text="RectClipPaths64 executed on every feasible path for a clip rectangle with 4 symbolic sides against a symbolic rectangle path (both orientations) and a concave notch 8-gon whose arms the rectangle cuts: result vertices within the rectangle, winding number preserved inside / zero outside at a fully symbolic probe point (exact winding oracle, solver decides for all probes), inside-unchanged, outside-vanishes, no panic.",
+    note="isCollinear summarised (lemma in the same check). Sloped input edges outside these jobs. Intersection rounding is over-approximated (off-by-one both ways), which the 2-unit band absorbs.",
+    ref="3/C06"),
+ "C11": dict(
+    text="RectClipLinesPaths64 executed on every feasible path for a symbolic rectangle against symbolic axis-parallel polylines (2-point segments, L shapes, collinear triples): vertices inside the rectangle and on the line, pieces not closed up, and a symbolic point of the input line more than 2 units from the rectangle boundary is covered iff it is inside the rectangle (two-point crossing segments included).",
+    note="Sloped segments and polylines of more than 3 points outside these jobs.",
+    ref="3/C11"),
 }
 
 not_applicable = {
